@@ -405,10 +405,26 @@ def judge_avoid(shapes, box, cb, outer, impl):
     return None
 
 
+def model_tags(prop, lines):
+    """Branch labels computed by the instrumented model (Model/FloatTrace.lean) for a batch of cases."""
+    from vlib import lean
+    out = []
+    for start in range(0, len(lines), 20000):
+        out.extend(lean.run_driver(prop.driver, lines[start:start + 20000]))
+    return out
+
+
+AVOID_BRANCHES = (
+    ['early-return', 'assert-fails'] +
+    [f'moves{k} {e} {p} {o}' for k in range(4) for e in ('free', 'fits', 'gave-up')
+     for p in ('left-bound', 'rtl-line', 'rtl-box') for o in ('outer', 'inner')
+     if not (e == 'free' and k > 0 and False)])
+
+
 class C11(PropCheck):
     id = 'C11'
     extractors = (float_tests.generate,)
-    modules = ('WpModel.Props.C11', 'WpModel.Witness.C11')
+    modules = ('WpModel.Props.C11', 'WpModel.Props.C11Flow', 'WpModel.Witness.C11')
     trusted_base = (
         'modelled, not verified: layout/float.py avoid_collisions / find_float_position / get_clearance, '
         'layout/absolute.py absolute_width / absolute_height / absolute_replaced / absolute_block translation, '
@@ -427,12 +443,15 @@ class C11(PropCheck):
         self.sec_float_seq(run)
         self.sec_avoid_wild(run)
         self.sec_clearance(run)
+        self.sec_float_width(run)
         self.sec_abs_width(run)
         self.sec_abs_height(run)
         self.sec_abs_replaced(run)
         self.sec_relative(run)
         c11_docs.sec_float_docs(run)
         c11_docs.sec_abs_docs(run)
+        c11_docs.sec_fixed_docs(run)
+        c11_docs.sec_wide_docs(run)
 
     def sec_float_seq(self, run):
         rng = run.rng
@@ -441,6 +460,7 @@ class C11(PropCheck):
             'find_float_position (mock excluded_shapes), then non-floating boxes (line / BFC root / replaced / table '
             'wrapper) probed with avoid_collisions and get_clearance on the resulting float list; non-trivial = at '
             'least one earlier float')
+        pending = []     # avoid_collisions probes, tagged afterwards with the branch the model took
         for _ in range(run.n(500, 8000)):
             adversarial = rng.random() < 0.25
             cb = gen_cb(rng, adversarial)
@@ -470,15 +490,25 @@ class C11(PropCheck):
                 probe = gen_probe_box(rng, cb, shapes, adversarial)
                 outer = rng.random() < 0.4
                 out = call_avoid(rng, shapes, probe, cb, outer)
-                sec.add(sx.line('avoid', shapes, probe, cb, outer), out,
-                        meta={'kind': 'avoid', 'shapes': shapes, 'box': probe, 'cb': cb, 'outer': outer},
-                        nontrivial=bool(shapes), tags=['probe-' + probe[10], 'outer' if outer else 'inner',
-                                                       'rtl' if cb[2] else 'ltr'])
+                pending.append((sx.line('avoid', shapes, probe, cb, outer), out,
+                                {'kind': 'avoid', 'shapes': shapes, 'box': probe, 'cb': cb, 'outer': outer},
+                                bool(shapes), ['probe-' + probe[10]],
+                                sx.line('avoidinfo', shapes, probe, cb, outer)))
             clear = rng.choice(CLEARS)
             py, cm = mk.dyadic(rng, 0, 80), rng.choice([F(0), mk.dyadic(rng, 0, 10)])
             sec.add(sx.line('clearance', shapes, clear, py, cm), call_clearance(rng, shapes, clear, py, cm),
                     meta={'kind': 'clearance', 'shapes': shapes, 'clear': clear, 'py': py, 'cm': cm},
                     nontrivial=bool(shapes), tags=['clearance-' + clear])
+
+        self.flush_pending(run, sec, pending)
+
+    def flush_pending(self, run, sec, pending):
+        labels = model_tags(self, [p[5] for p in pending])
+        seen = run.extra.setdefault('avoid_branches_seen', {})
+        for (line, out, meta, nontrivial, tags, _info), label in zip(pending, labels):
+            seen[label] = seen.get(label, 0) + 1
+            sec.add(line, out, meta=meta, nontrivial=nontrivial, tags=tags + ['branch: ' + label])
+        run.extra['avoid_branches_never_hit'] = sorted(set(AVOID_BRANCHES) - set(seen))
 
     def sec_avoid_wild(self, run):
         rng = run.rng
@@ -486,6 +516,7 @@ class C11(PropCheck):
             'avoid-wild', 'avoid_collisions / find_float_position on arbitrary shape lists (overlapping, zero and '
             'negative extents, huge values) and arbitrary boxes, outer and inner; non-trivial = some shape collides '
             'vertically with the requested position')
+        pending = []
         for _ in range(run.n(3000, 60000)):
             cb = gen_cb(rng, True)
             shapes = gen_wild_shapes(rng, rng.randint(0, 12))
@@ -493,6 +524,10 @@ class C11(PropCheck):
             outer = rng.random() < 0.5
             h = probe[7] + (probe[2] + probe[3] if outer else 0)
             y = probe[1] if outer else probe[1] + probe[2]
+            if rng.random() < 0.06:
+                # the "no solution" exit: only zero-height shapes collide (none of them ends lower)
+                shapes = [s for s in shapes if not (s[1] < y + h and y < s[1] + s[3])]
+                shapes.append([cb[0], y + rng.choice([F(0), h]), cb[1], F(0), rng.choice(SIDES)])
             touching = any(s[1] < y + h and y < s[1] + s[3] for s in shapes)
             if rng.random() < 0.3 and probe[8] != 'none':
                 from weasyprint.layout import float as float_
@@ -505,9 +540,42 @@ class C11(PropCheck):
                         nontrivial=touching, tags=['findpos'])
             else:
                 out = call_avoid(rng, shapes, probe, cb, outer)
-                sec.add(sx.line('avoid', shapes, probe, cb, outer), out,
-                        meta={'kind': 'avoid', 'shapes': shapes, 'box': probe, 'cb': cb, 'outer': outer},
-                        nontrivial=touching, tags=['err' if out.startswith('err') else 'ok', 'probe-' + probe[10]])
+                pending.append((sx.line('avoid', shapes, probe, cb, outer), out,
+                                {'kind': 'avoid', 'shapes': shapes, 'box': probe, 'cb': cb, 'outer': outer},
+                                touching, ['err' if out.startswith('err') else 'ok', 'probe-' + probe[10]],
+                                sx.line('avoidinfo', shapes, probe, cb, outer)))
+        self.flush_pending(run, sec, pending)
+
+    def sec_float_width(self, run):
+        """`float_width` (under handle_min_max_width) with the real shrink_to_fit over patched content widths."""
+        from weasyprint.layout import float as float_
+        rng = run.rng
+        boxes = mk.boxes_mod()
+        sec = run.section(
+            'float-width', 'float_width on auto-width floats: random min/max-content widths, min-width, max-width '
+            '(also min > max), containing block widths; non-trivial = a min/max constraint is active')
+        for _ in range(run.n(600, 10000)):
+            min_w = rng.choice([F(0), F(0), mk.dyadic(rng, 0, 80)])
+            max_w = rng.choice([math.inf, math.inf, mk.dyadic(rng, 0, 120)])
+            min_c = mk.dyadic(rng, 0, 60)
+            max_c = min_c + rng.choice([F(0), mk.dyadic(rng, 0, 150)])
+            cb_w = rng.choice([F(0), F(100), mk.dyadic(rng, 0, 300)])
+            box = boxes.BlockBox('div', mk.Style({'float': 'left'}), None, [])
+            box.width, box.min_width, box.max_width, box._minc, box._maxc = 'auto', min_w, max_w, min_c, max_c
+            box.margin_left = box.margin_right = F(0)
+            cb = mk.real_cb([F(0), cb_w, False])
+
+            def run_it():
+                with mk.patched_content_widths():
+                    float_.float_width(box, None, cb)
+                return box.width
+            out = mk.outcome(run_it)
+            out = out if isinstance(out, str) else sx.atom(out)
+            natural = min(max(min_c, cb_w), max_c)
+            sec.add(sx.line('floatwidth', min_w, max_w, min_c, max_c, cb_w), out,
+                    meta={'kind': 'floatwidth', 'args': [min_w, max_w, min_c, max_c, cb_w]},
+                    nontrivial=natural < min_w or natural > max_w,
+                    tags=['below-min' if natural < min_w else 'above-max' if natural > max_w else 'unclamped'])
 
     def sec_clearance(self, run):
         rng = run.rng
@@ -527,6 +595,7 @@ class C11(PropCheck):
             'abs-width', 'absolute_width (with its min/max wrapper and the real shrink_to_fit) + the translation of '
             'absolute_block: all 2^5 auto patterns of (left, right, width, margin-left, margin-right) x ltr/rtl, '
             'K value draws each; non-trivial = every case (each pattern is a distinct branch)')
+        pending = []
         for pattern in itertools.product((False, True), repeat=5):
             for ltr in (True, False):
                 for k in range(run.n(24, 400)):
@@ -534,9 +603,16 @@ class C11(PropCheck):
                     wire = gen_hbox(rng, pattern, adversarial)
                     cb_x, cb_w = mk.dyadic(rng, 0, 50), rng.choice([F(100), F(200), mk.dyadic(rng, 0, 300)])
                     out = call_abs_width(wire, ltr, cb_x, cb_w)
-                    sec.add(sx.line('abswidth', wire, ltr, cb_x, cb_w), out,
-                            meta={'kind': 'abswidth', 'wire': wire, 'ltr': ltr, 'cb_x': cb_x, 'cb_w': cb_w},
-                            tags=['h-' + ''.join('a' if a else 'v' for a in pattern), 'ltr' if ltr else 'rtl'])
+                    pending.append((sx.line('abswidth', wire, ltr, cb_x, cb_w), out,
+                                    {'kind': 'abswidth', 'wire': wire, 'ltr': ltr, 'cb_x': cb_x, 'cb_w': cb_w},
+                                    ['h-' + ''.join('a' if a else 'v' for a in pattern), 'ltr' if ltr else 'rtl'],
+                                    sx.line('abswidthinfo', wire, ltr, cb_x, cb_w)))
+        labels = model_tags(self, [p[4] for p in pending])
+        seen = {}
+        for (line, out, meta, tags, _info), label in zip(pending, labels):
+            seen[label] = seen.get(label, 0) + 1
+            sec.add(line, out, meta=meta, tags=tags + ['minmax: ' + label])
+        run.extra['abs_width_minmax_branches'] = seen
         run.extra['abs_patterns'] = 'all 2^5 x 2 horizontal, 2^5 vertical, 2^8 x 2 replaced auto patterns'
 
     def sec_abs_height(self, run):
@@ -601,7 +677,19 @@ class C11(PropCheck):
             return judge_abs(kind, meta, impl)
         if kind == 'relpos':
             return judge_rel(meta, impl)
-        if kind in ('float-doc', 'abs-doc'):
+        if kind == 'floatwidth':
+            min_w, max_w, min_c, max_c, cb_w = meta['args']
+            if impl.startswith('err:'):
+                return f'float_width raised {impl}'
+            w = F(impl)
+            if w < min_w:
+                return f'used width {w} of an auto-width float is below min-width {min_w}'
+            if min_w <= max_w and w > max_w:
+                return f'used width {w} of an auto-width float is above max-width {max_w}'
+            if min_w <= min(max(min_c, cb_w), max_c) <= max_w and w != min(max(min_c, cb_w), max_c):
+                return f'used width {w} is not the shrink-to-fit width {min(max(min_c, cb_w), max_c)}'
+            return None
+        if kind in ('float-doc', 'abs-doc', 'fixed-doc', 'wide-doc'):
             return c11_docs.judge(meta, impl, d.get('line'))
         return None
 
@@ -619,7 +707,7 @@ class C11(PropCheck):
         if 'html' in inp:
             return c11_docs.replay_html(inp)
         meta = inp.get('meta') or {}
-        if meta.get('kind') in ('float-doc', 'abs-doc'):
+        if meta.get('kind') in ('float-doc', 'abs-doc', 'fixed-doc', 'fixed-late', 'wide-doc'):
             return c11_docs.replay_html({'kind': meta['kind'], 'doc': meta['doc']})
         if meta.get('kind'):
             meta = unjson(meta)
@@ -793,27 +881,36 @@ PROP = C11()
 MANIFEST = {
     'design_ref': 'DESIGN.md §4 C11',
     'technique': 'Lean 4 theorems over hand-written models of float.py (avoid_collisions, find_float_position, '
-                 'get_clearance, float_layout placement), absolute.py (absolute_width with its min/max wrapper, '
-                 'absolute_height, absolute_replaced, absolute_block translation, containing-block choice) and '
-                 'relative_positioning; the three arithmetic tests of avoid_collisions are regenerated from the source '
-                 '(AST) on every run; exact executable correspondence with the real functions (mock boxes, Fractions) and '
-                 'with rendered documents (float sequences mixed with paragraphs, BFC roots, images, tables; positioned '
-                 'boxes nested in static / relative / absolute ancestors, fixed boxes on every page)',
-    'text': 'Unbounded theorems (any number of floats, any sizes): the collision test is open-interval overlap (with its '
-            'zero-height boundary cases); the avoidance loop terminates within len(shapes)+1 iterations; a box that fits '
-            'the returned width overlaps no float, lies inside the containing block and is not above the request; every '
-            'skipped position was blocked (as high as possible); the loop only gives up when no colliding float ends '
-            'lower, and never among floats with area; float side / top rules; after any sequence of placements the floats '
-            'are pairwise disjoint with tops in document order and each is below the floats its clear names; clearance is '
-            'the least sufficient amount; the absolute constraint equations for every auto pattern in ltr and rtl (left '
-            'always honoured, right / bottom honoured outside the listed defect cases), static positions, centring, '
-            'shrink-to-fit, min/max re-entry; absolute_replaced total with exact halves; relative positioning is a '
-            'translation by the CSS 2.1 offset and the identity elsewhere.',
+                 'get_clearance, float_width, the front and placement parts of float_layout), inline.py (get_next_linebox '
+                 'loop, text_align, floats met inside a line), block.py (clearance from the collapsed margin, BFC roots / '
+                 'replaced blocks / tables next to floats, relative_positioning), absolute.py (absolute_width with its '
+                 'min/max wrapper, absolute_height, absolute_replaced, absolute_block translation, containing-block '
+                 'choice) and the fixed-box plumbing of make_page / layout_fixed_boxes; the three arithmetic tests of '
+                 'avoid_collisions are regenerated from the source (AST) on every run; exact executable correspondence '
+                 'with the real functions (mock boxes, Fractions) and with rendered documents; a verified trace checker '
+                 '(checkEvents, proved sound, complete on floats and accepting everything the model produces) run on '
+                 'rendered wide-grammar documents whose lines are broken by the real line breaker',
+    'text': 'Unbounded theorems: the collision test is open-interval overlap; the avoidance loop terminates within '
+            'len(shapes)+1 iterations; a box that fits the returned width overlaps no float, lies inside the containing '
+            'block and is not above the request; every skipped position was blocked; the loop never gives up among floats '
+            'with area; float side / top rules; after any sequence of placements — and after any document of floats, '
+            'paragraphs, BFC roots, images, tables and blocks with collapsing margins laid out by the flow model — the '
+            'floats are pairwise disjoint with tops in document order, and the verified checker accepts them; clearance is '
+            'the least sufficient amount and is added to the collapsed position; a float met in a line is never above the '
+            'line, and after a deferred float every float of the line is deferred; get_next_linebox terminates; the '
+            'containing block is the nearest positioned ancestor else the page; a collected fixed box is laid out on every '
+            'page at the same place; the absolute constraint equations for every auto pattern in ltr and rtl (outside the '
+            'listed defect cases), static positions, centring, shrink-to-fit, min/max re-entry; absolute_replaced total '
+            'with exact halves; relative positioning is a translation by the CSS 2.1 offset and the identity elsewhere.',
     'note': 'Trusted: Lean kernel, the hand transcription of the Python functions (tied only by the correspondence), the '
-            'AST translator of the three float tests, mock boxes. Partial: line shortening itself (Pango) and floats met '
-            'inside a line are only covered through the avoid_collisions call of get_next_linebox; float fragmentation '
-            'across pages belongs to C01. abs_equation_h/v and abs_replaced are proved with explicit hypotheses excluding '
-            'the known finding abs-auto-margin-ignores-opposite-margin; float_rules needs a non-empty border box (known '
-            'finding zero-height-float-at-page-origin); documents avoid min/max-height on containing blocks and fixed '
-            'boxes inside absolute boxes (known findings abs-cb-height-before-min-max, fixed-in-absolute-not-repeated).',
+            'AST translator of the three float tests, mock boxes. Partial: the content of a line (Pango) is a parameter of '
+            'the model (one word or one inline-block per line); multi-word lines are covered by the trace checker only. '
+            'Float fragmentation across pages belongs to C01. Theorems with explicit hypotheses (witnesses in '
+            'Witness/C11.lean, nine known findings): abs_equation_h/v and abs_replaced (auto margin ignores the opposite '
+            'margin), float rules (zero-height float sent to the page origin), flow theorems exclude floats met inside '
+            'lines (snapped to the line top; displaced by rtl / text-align shifts), fixed_on_every_page excludes fixed '
+            'boxes collected late (inside an absolutely positioned box); generators avoid min/max-height on containing '
+            'blocks (abs-cb-height-before-min-max) and overlap checks skip shifted tall lines '
+            '(tall-line-aligned-in-strut-band); float widths mirror float-shrink-to-fit-ignores-margins-paddings and '
+            'float-width-ignores-min-max.',
 }
